@@ -104,6 +104,7 @@ type c10Valid struct {
 	b      []byte
 	bounds []int // distinct read boundaries in (hdr, len(b)], ascending, always ending with len(b)
 	lenOff []int // offsets of 2-byte fields whose value is the size of the next read
+	twoOff []int // offsets of all 2-byte reads
 	hdr    int
 }
 
@@ -165,14 +166,20 @@ func c10MakeValid(kind string, t, rep int) (*c10Valid, error) {
 	}
 	v.b = b
 	lr := &c10LogReader{b: b}
-	if _, err := c10Codecs[kind].dec(lr); err != nil {
-		return nil, fmt.Errorf("decode of valid encoding failed: %w", err)
-	}
+	// If the valid encoding does not decode, the read log is what it is; the
+	// "valid" cell records the failure (round-trip law), nothing is hidden.
+	func() {
+		defer func() { _ = recover() }()
+		_, _ = c10Codecs[kind].dec(lr)
+	}()
 	seen := map[int]bool{}
 	for i, e := range lr.ends {
 		if e > v.hdr && !seen[e] {
 			seen[e] = true
 			v.bounds = append(v.bounds, e)
+		}
+		if lr.lens[i] == 2 && e-2 >= v.hdr {
+			v.twoOff = append(v.twoOff, e-2)
 		}
 		if lr.lens[i] == 2 && i+1 < len(lr.ends) {
 			val := int(binary.BigEndian.Uint16(b[e-2 : e]))
@@ -298,6 +305,14 @@ func c10Mutate(v *c10Valid, c c10Cell, rep int) ([]byte, bool) {
 			x++
 		}
 		binary.BigEndian.PutUint16(b[o:], x)
+		return b, true
+
+	case "len-max":
+		if len(v.twoOff) == 0 {
+			return nil, false
+		}
+		b := cp()
+		binary.BigEndian.PutUint16(b[c10Pick(v.twoOff, c.Pos):], 0xffff)
 		return b, true
 
 	case "tail-odd", "tail-even", "tail-unsorted", "tail-nonmin":
